@@ -19,6 +19,7 @@ from .. import build, runner
 from ..worker import _lift_limits
 
 LEVEL = "exploration"
+BUILDS = [("asan", ["asynccheck"]), ("tsan", ["asynccheck", "lpcvm"])]      # built by the parent process before the shards start
 RULE = ("cases = op scripts of five classes: EL (1-40 ops over post / wakeup / wait(0) / k threads posting n each behind a barrier / post while blocked), "
         "Q1 (capacity 1-8, message size 1-32, every policy, 1-60 enqueue / dequeue / clear / stats / full-empty ops), QB (1-5 writers blocked on a full BLOCK_WRITER queue of capacity 1-6, then drain / clear + drain / clear + a further writer + drain), QT (1-4 producers x 20-400 messages, "
         "capacity 1-16, each policy, seeded yields, one consumer), WK (4 worker procedure kinds x delay before stop 0-20 ms x stop or not x join timeout "
